@@ -246,7 +246,7 @@ nodesLoop:
 			}
 			if node.Condition != nil {
 				ti := tc.checkExpr(node.Condition)
-				if ti.Type.Kind() != reflect.Bool {
+				if ti.Nil() || ti.Type.Kind() != reflect.Bool {
 					panic(tc.errorf(node.Condition, "non-bool %s (type %v) used as for condition", node.Condition, ti.ShortString()))
 				}
 				ti.setValue(nil)
